@@ -160,14 +160,23 @@ def expect_value(v, n):
         return ("date", dtm.date(*v["date"]).toordinal())
     if "time" in v:
         h, m, s, us, tz = v["time"]
+        if tz == "rule":
+            tz = None      # a rule-based zone gives a time of day no offset: it is naive
         return canon_time(h, m, s, us, tz, n.default_utc)
     if "dt" in v:
         y, mo, d, h, mi, s, us, tz = v["dt"]
+        if tz == "rule":
+            from .gen_values import rule_offset_minutes
+            tz = rule_offset_minutes(mo)
         return canon_dt(y, mo, d, h, mi, s, us, tz, n.default_utc)
     if "q" in v:
         units = v["q"][1]
         if n.tab_replace > 0:
             units = units.replace("\t", " " * n.tab_replace)
+        if n.omni:
+            # the documented dash continuation of OmniParser.parse works on the whole
+            # text, units expressions included
+            units = omni_dash(units)
         return ("q", expect_value(v["q"][0], n), units)
     if "seq" in v:
         return ("seq", tuple(expect_value(i, n) for i in v["seq"]))
